@@ -59,6 +59,15 @@ def instances(tier, seed):
     for fn in sorted(FLAGSETS):
         for n in ("Int8ub", "Int16ul"):
             out.append(dict(name="FlagsEnum(%s, %s)" % (n, fn), params=dict(kind="flags", sub=n, table=fn)))
+    # validators and constants over bytes and text sub-constructs
+    for sub, n, vals, text in (("Bytes(2)", 2, [b"ab", b"\x00\x00", b"\xff\xfe"], False), ("Bytes(1)", 1, [b"\x00", b"a"], False),
+                               ("PaddedString(2, 'ascii')", 2, ["ab", "a", ""], True), ("PaddedString(2, 'utf8')", 2, ["a", "\u00e9"], True),
+                               ("CString('ascii')", 3, ["", "x", "xy"], True), ("PascalString(Byte, 'ascii')", 3, ["", "ab"], True)):
+        for neg in (False, True):
+            out.append(dict(name="%s(%s, %r)" % ("NoneOf" if neg else "OneOf", sub, vals), params=dict(kind="oneofseq", sub=sub, n=n, vals=[v.hex() if isinstance(v, bytes) else v for v in vals], text=text, neg=neg)))
+        out.append(dict(name="Const(%r, %s) vs its sub-construct" % (vals[0], sub), params=dict(kind="constseq", sub=sub, n=n, c=vals[0].hex() if isinstance(vals[0], bytes) else vals[0], text=text)))
+        out.append(dict(name="ExprValidator(%s, obj_ != %r)" % (sub, vals[0]), params=dict(kind="validatorseq", sub=sub, n=n, c=vals[0].hex() if isinstance(vals[0], bytes) else vals[0], text=text)))
+        out.append(dict(name="Mapping(%s, labels -> %r)" % (sub, vals), params=dict(kind="mappingseq", sub=sub, n=n, vals=[v.hex() if isinstance(v, bytes) else v for v in vals], text=text)))
     out.append(dict(name="Enum from IntEnum", params=dict(kind="enum-intenum")))
     out.append(dict(name="Mapping(Byte)", params=dict(kind="mapping")))
     out.append(dict(name="Mapping(Bytes(1))", params=dict(kind="mapping-bytes")))
@@ -171,6 +180,103 @@ def _oneof(ctx, C, p):
     else:
         ctx.check("excluded value is refused with ValidationError on build", (not r.ok) and isinstance(r.exc, C.ValidationError))
     return "ok"
+
+
+def _seqvals(p, key="vals"):
+    v = p[key]
+    if isinstance(v, list):
+        return [x if p["text"] else bytes.fromhex(x) for x in v]
+    return v if p["text"] else bytes.fromhex(v)
+
+
+def _member(ctx, v, vals):
+    return api.or_terms([ctx.eq(v, x) for x in vals])
+
+
+def _oneofseq(ctx, C, p):
+    """OneOf / NoneOf over a bytes or text sub-construct: admitted exactly when the plain sub-construct's value is (not) in the list"""
+    vals = _seqvals(p)
+    sub = mk(C, p["sub"])
+    d = mk(C, "%s(%s, %r)" % ("NoneOf" if p["neg"] else "OneOf", p["sub"], vals))
+    data = ctx.bytes("data", p["n"])
+    rp = api.outcome(sub.parse, data)
+    r = api.outcome(d.parse, data)
+    if not rp.ok:
+        ctx.check("what the sub-construct rejects the validator rejects", not r.ok)
+        return "sub-reject"
+    want = _member(ctx, rp.value, vals)
+    want = api.not_term(want) if p["neg"] else want
+    if ctx.fork(want):
+        ctx.check("admitted value parses and is returned unchanged", r.ok and ctx.fork(ctx.eq(r.value, rp.value)))
+        b = api.outcome(d.build, rp.value)
+        ctx.check("and builds to the plain encoding", b.ok and ctx.fork(ctx.eq(b.value, sub.build(rp.value))))
+        return "admitted"
+    ctx.check("excluded value is rejected with ValidationError on parse", (not r.ok) and isinstance(r.exc, C.ValidationError))
+    b = api.outcome(d.build, rp.value)
+    ctx.check("and refused with ValidationError on build", (not b.ok) and isinstance(b.exc, C.ValidationError))
+    return "excluded"
+
+
+def _constseq(ctx, C, p):
+    c = _seqvals(p, "c")
+    sub = mk(C, p["sub"])
+    d = mk(C, "Const(%r, %s)" % (c, p["sub"]))
+    enc = sub.build(c)
+    ctx.check("build(None) and build(constant) emit the sub-construct's encoding of the constant", ctx.eq(d.build(None), enc) and ctx.eq(d.build(c), enc))
+    data = ctx.bytes("data", p["n"])
+    rp = api.outcome(sub.parse, data)
+    r = api.outcome(d.parse, data)
+    if not rp.ok:
+        ctx.check("what the sub-construct rejects Const rejects", not r.ok)
+        return "sub-reject"
+    if ctx.fork(ctx.eq(rp.value, c)):
+        ctx.check("input decoding to the constant is accepted and yields it", r.ok and ctx.fork(ctx.eq(r.value, c)))
+        return "accept"
+    ctx.check("input decoding to anything else is rejected with ConstError", (not r.ok) and isinstance(r.exc, C.ConstError))
+    b = api.outcome(d.build, rp.value)
+    ctx.check("and that value is refused with ConstError on build", (not b.ok) and isinstance(b.exc, C.ConstError))
+    return "reject"
+
+
+def _validatorseq(ctx, C, p):
+    c = _seqvals(p, "c")
+    sub = mk(C, p["sub"])
+    d = mk(C, "ExprValidator(%s, obj_ != %r)" % (p["sub"], c))
+    data = ctx.bytes("data", p["n"])
+    rp = api.outcome(sub.parse, data)
+    r = api.outcome(d.parse, data)
+    if not rp.ok:
+        ctx.check("what the sub-construct rejects the validator rejects", not r.ok)
+        return "sub-reject"
+    if ctx.fork(ctx.eq(rp.value, c)):
+        ctx.check("a value violating the predicate is rejected on parse", (not r.ok) and isinstance(r.exc, C.ValidationError))
+        b = api.outcome(d.build, rp.value)
+        ctx.check("and on build", (not b.ok) and isinstance(b.exc, C.ValidationError))
+        return "violates"
+    ctx.check("a value satisfying the predicate parses unchanged", r.ok and ctx.fork(ctx.eq(r.value, rp.value)))
+    return "satisfies"
+
+
+def _mappingseq(ctx, C, p):
+    vals = _seqvals(p)
+    labels = ["L%d" % i for i in range(len(vals))]
+    sub = mk(C, p["sub"])
+    d = mk(C, "Mapping(%s, %r)" % (p["sub"], dict(zip(labels, vals))))
+    data = ctx.bytes("data", p["n"])
+    rp = api.outcome(sub.parse, data)
+    r = api.outcome(d.parse, data)
+    if not rp.ok:
+        ctx.check("what the sub-construct rejects the mapping rejects", not r.ok)
+        return "sub-reject"
+    for lab, v in zip(labels, vals):
+        if ctx.fork(ctx.eq(rp.value, v)):
+            ctx.check("a mapped value decodes to its label", r.ok and r.value == lab)
+            ctx.check("and the label builds to that value's encoding", ctx.eq(d.build(lab), sub.build(v)))
+            return "mapped"
+    ctx.check("an unmapped value is rejected with MappingError", (not r.ok) and isinstance(r.exc, C.MappingError))
+    b = api.outcome(d.build, "no such label")
+    ctx.check("an unknown label is refused with MappingError", (not b.ok) and isinstance(b.exc, C.MappingError))
+    return "unmapped"
 
 
 def _validator(ctx, C, p):
